@@ -802,7 +802,7 @@ func c12RandomCase(c *Case, g map[string]*c12Avail, classes []*c12Class) {
 // ---------------------------------------------------------------------------
 
 func runC12(r *Run) {
-	r.Rule = "complete cross product: every placeholder position class of the workflow syntax (one clean template each) x 12 contexts + 5 special functions x embeddings {toJSON(ctx) / fn(), upper-case name, nested in call+comparison+negation+logical operator, second placeholder of the scalar}; expected availability diagnostics (exact line:col) from an independently transcribed documentation table and a position->key map. Plus the API boundary (WorkflowKeyAvailability over all table keys and misspelt keys, SpecialFunctionNames, a semantics checker configured with the result) the sibling sections of the probed position (every matrix position x include / exclude / rows shapes, every job position with all other job sections before / after in mapping, scalar and expression forms, call jobs, step kinds, container / services / environment / concurrency / runs-on sub-fields: about 1290 position x neighbour-shape cases x 17 names), every list-valued position x lists of 2-4 elements x probed element index x literal / whole-value-expression / mixed siblings x probe shape {whole value, text before, text after, both} and random expressions with 1-3 names in random letter case, nesting (also inside hashFiles arguments), quoting and surrounding text. Surrounding literal text and YAML style: every class x 16 text variants (`}}`, `{{`, `}`, `${`, `$`, JSON, go-template before/after the placeholder, on earlier lines of block scalars, inside a string literal of the expression) x 7 scalar styles (plain, single-, double-quoted, literal, folded, with and without strip chomping), two rotating names per lint. Several names in one expression: every class x 12 contexts inside the arguments of hashFiles (7 shapes; both verdicts predicted independently) and every class x 17x17 ordered name pairs as arguments of one call / operands of one operator. Non-trivial = distinct (class, name, embedding) triple, (class, context, hashFiles shape), (class, name, name), distinct API key, distinct random workflow."
+	r.Rule = "complete cross product: every placeholder position class of the workflow syntax (one clean template each) x 12 contexts + 5 special functions x embeddings {toJSON(ctx) / fn(), upper-case name, nested in call+comparison+negation+logical operator, second placeholder of the scalar}; expected availability diagnostics (exact line:col) from an independently transcribed documentation table and a position->key map. Plus the API boundary (WorkflowKeyAvailability over all table keys and misspelt keys, SpecialFunctionNames, a semantics checker configured with the result) the sibling sections of the probed position (every matrix position x include / exclude / rows shapes, every job position with all other job sections before / after in mapping, scalar and expression forms, call jobs, step kinds, container / services / environment / concurrency / runs-on sub-fields: about 1290 position x neighbour-shape cases x 17 names), every list-valued position x lists of 2-4 elements x probed element index x literal / whole-value-expression / mixed siblings x probe shape {whole value, text before, text after, both} every class x 12 contexts x 11 spellings of the access (ctx.prop, ctx['prop'], CTX['PROP'], computed index, as an index, as an argument, under !, in a comparison, bare, two levels deep) and random expressions with 1-3 names in random letter case, nesting (also inside hashFiles arguments), quoting and surrounding text. Surrounding literal text and YAML style: every class x 16 text variants (`}}`, `{{`, `}`, `${`, `$`, JSON, go-template before/after the placeholder, on earlier lines of block scalars, inside a string literal of the expression) x 7 scalar styles (plain, single-, double-quoted, literal, folded, with and without strip chomping), two rotating names per lint. Several names in one expression: every class x 12 contexts inside the arguments of hashFiles (7 shapes; both verdicts predicted independently) and every class x 17x17 ordered name pairs as arguments of one call / operands of one operator. Non-trivial = distinct (class, name, embedding) triple, (class, context, hashFiles shape), (class, name, name), distinct API key, distinct random workflow."
 	r.Assume("the governing table key of a sub-field without a row of its own is the row of the enclosing mapping (container.ports -> jobs.<job_id>.container, services.<id>.image -> jobs.<job_id>.services, strategy.* -> jobs.<job_id>.strategy, with.args -> jobs.<job_id>.steps.with, env var names -> the row of the env mapping)")
 	r.Assume("`undefined variable \"jobs\"` counts as reporting the jobs context where it is not available")
 	r.Assume("only availability-class diagnostics are compared; any other diagnostic of a probe workflow is ignored")
@@ -832,6 +832,7 @@ func runC12(r *Run) {
 		{Name: "surrounding-text", N: len(classes), Do: func(c *Case) { c12TextCase(c, g, classes[c.Idx], c.Idx) }},
 		{Name: "neighbours", N: len(ncases), Do: func(c *Case) { c12NeighbourCase(c, g, ncases[c.Idx]) }},
 		{Name: "list-elements", N: len(lcases), Do: func(c *Case) { c12ListCase(c, g, lcases[c.Idx]) }},
+		{Name: "access-spelling", N: len(classes), Do: func(c *Case) { c12SpellingCase(c, g, classes[c.Idx]) }},
 		{Name: "random-embedding", N: r.Q(1000, 40000), Do: func(c *Case) { c12RandomCase(c, g, classes) }},
 	}
 	r.RunFamilies(fams)
@@ -866,6 +867,7 @@ func runC12(r *Run) {
 	c12TextFloors(r, g)
 	c12NeighbourFloors(r, ncases)
 	c12ListFloors(r, lcases)
+	c12SpellingFloors(r, g, classes)
 	if !r.SetHas("table_keys", "none") {
 		r.Inconclusive("no position class outside the table was exercised")
 	}
